@@ -119,6 +119,15 @@ class C14(SessionCheck):
                 if st == 'W' and rid is not None and rid in proper and io['req_status'][i - 1] == 'sent':
                     return ('C14:session-wedged', 'request %d: its reply was sent and completely read, the worker is still running, yet the request got '
                             'neither the reply nor an error' % i)
+        # what take_notification hands to the caller is a well-formed document (judged by an independent parser)
+        import xml.etree.ElementTree as ET2
+        from core import unhexs as _unhexs
+        for t in obs[-1].get('taken', []):
+            raw = _unhexs(t)
+            try:
+                ET2.fromstring(raw.encode('utf-8'))
+            except Exception as e:
+                return ('C14:non-xml-reached-caller', 'take_notification returned a payload that is not well-formed XML: %r (%s)' % (raw[:80], type(e).__name__))
         # a request only ever completes with a well-formed reply carrying its id (never garbage as data)
         for o in obs:
             for i, st in rpc_states(o).items():
